@@ -1,18 +1,19 @@
 CONSTANTS
   Fix = "vars-rollback"
   N = 3
-  Shared = {"x","y"}
+  Shared = {"x"}
   Locals = {}
   Pairs <- P31
   Tcp = FALSE
-  MaxAtt = 5
+  MaxAtt = 4
   MaxPer = 2
   MaxOps = 2
-  MaxChain = 2
+  MaxChain = 1
   Aborts = TRUE
   SendLast = FALSE
   Record = TRUE
   OnlyBad = TRUE
 INIT Init
 NEXT Next
+VIEW GenView
 CHECK_DEADLOCK FALSE
